@@ -1,7 +1,11 @@
 /-
   Driver for the `fmap` suite (C11): requests on the same session as `forest` (`FState`),
-  first word `fmap`: the entry API and `get_mut` of the mutable node map, `get` / `get_node`,
-  and a full read of a view with the entry nodes' labels.
+  first word `fmap`: `insert` / `remove` / `get_mut` and the entry API of the mutable node map,
+  `get` / `get_node` / `contains_key`, and a full read of a view with the entry nodes' labels.
+
+  Every call is executed as a step of the history type of the theorems (`Fmap.MapCall.run`,
+  Model/FmapRet.lean) and answered with its outcome followed by the value it RETURNS
+  (`Fmap.Ret`, `showRet`), which the harness prints from the real crate.
 -/
 import XotModel.Model.FmapEntry
 import XotModel.Model.FmapSpec2
@@ -15,16 +19,6 @@ def entryValue? (k : Forest.MapKind) (key val : String) : Option Value :=
   match k with
   | .attributes => do some (.attribute (← key.toNat?) (← decStr val))
   | .namespaces => do some (.namespace (← key.toNat?) (← val.toNat?))
-
-/-- The closure given to `and_modify`: attributes `|v| v.push_str(arg)`, namespaces `|v| *v = arg`. -/
-def modifier? (k : Forest.MapKind) (arg : String) : Option (Value → Value) :=
-  match k with
-  | .attributes => do
-      let sfx ← decStr arg
-      some fun v => match v with | .attribute n s => .attribute n (s ++ sfx) | v => v
-  | .namespaces => do
-      let ns ← arg.toNat?
-      some fun v => match v with | .namespace p _ => .namespace p ns | v => v
 
 def showPayload : Value → String
   | .attribute _ v => encStr v
